@@ -318,6 +318,27 @@ theorem frame_shape (sl : Int) (p : List UInt8) (h : (p.length : Int) ≤ sl) (h
 example : frame 512 [1, 2, 3] = some [0, 0, 0, 3, 1, 2, 3] := by decide
 example : frame 2 [1, 2, 3] = none := by decide
 
+/-- Framing loses nothing: two payloads that are written as the same frame are the same payload
+    (so a receiver can never confuse two different serialised messages). -/
+theorem frame_injective (sl : Int) (p q w : List UInt8)
+    (hp : frame sl p = some w) (hq : frame sl q = some w) : p = q := by
+  have fp : fits sl p = true := by
+    cases h : fits sl p
+    · rw [frame_none sl p h] at hp; cases hp
+    · rfl
+  have fq : fits sl q = true := by
+    cases h : fits sl q
+    · rw [frame_none sl q h] at hq; cases hq
+    · rfl
+  obtain ⟨a, b, c, e, _⟩ := frame_some sl p fp
+  obtain ⟨a', b', c', e', _⟩ := frame_some sl q fq
+  rw [e] at hp; rw [e'] at hq
+  have h := (Option.some.inj hp).trans (Option.some.inj hq).symm
+  simp only [List.cons.injEq] at h
+  exact h.2.2.2.2
+
+example : frame 512 [1, 2] = some [0, 0, 0, 2, 1, 2] ∧ frame 512 [1, 3] ≠ some [0, 0, 0, 2, 1, 2] := by decide
+
 /-! ## reader: messages -/
 
 /-- THE STREAM THEOREM.  For every queue of messages, every serializer pair with
